@@ -182,8 +182,10 @@ class MerkleCache(object):
             truncations = self._truncations
             start = self._leaf_start(self.length)
             hashes = await self.source_func(start, length - start)
-            # Discard what was read if the cache was truncated in the meantime
-            if truncations == self._truncations:
+            # Discard what was read if the cache was truncated in the meantime, or if a
+            # concurrent call has extended it at least as far: the cache must not shrink
+            # under a caller that has just extended it
+            if truncations == self._truncations and length > self.length:
                 self.level[start >> self.depth_higher:] = self._level(hashes)
                 self.length = length
 
